@@ -560,7 +560,60 @@ theorem run_absent (info : Nat → EntInfo) (ops : List Op) (c : CC) (k : Nat) (
     · exact h3
     · exact this.2 res hres
 
+theorem aget_filter_live (info : Nat → EntInfo) (l : List (Nat × Nat)) (k u : Nat)
+    (hg : aget l k = some u) (hx : expired info u = false) :
+    aget (l.filter (fun p => !expired info p.2)) k = some u := by
+  induction l with
+  | nil => simp [aget] at hg
+  | cons q t ih =>
+    obtain ⟨a, b⟩ := q
+    by_cases ha : a = k
+    · subst ha
+      simp only [aget, if_true] at hg
+      injection hg with hg
+      subst hg
+      simp [List.filter, hx, aget]
+    · simp only [aget, ha, if_false] at hg
+      by_cases hb : expired info b = true
+      · simp only [List.filter, hb, Bool.not_true]
+        exact ih hg
+      · have hb' : expired info b = false := by simpa using hb
+        simp only [List.filter, hb', Bool.not_false, aget, ha, if_false]
+        exact ih hg
+
+/-- the expiry sweep leaves every mapping whose session is in the cache and has not expired -/
+theorem sweep_keeps_live_route (info : Nat → EntInfo) (c : CC) (ck k u : Nat)
+    (hm : (ck, k) ∈ c.cmds) (hg : aget c.sessions k = some u) (hx : expired info u = false) :
+    (ck, k) ∈ (apply info c .gc).1.cmds ∧ aget (apply info c .gc).1.sessions k = some u := by
+  simp only [apply]
+  have := aget_filter_live info c.sessions k u hg hx
+  exact ⟨List.mem_filter.mpr ⟨hm, by simp [this]⟩, this⟩
+
 end Lin
+
+namespace Mint
+
+theorem run_adds (l : List Step) (h : onlyAdds l) (s : St) (hb : ∀ v ∈ s.out, v ≤ s.ctr) (hn : s.out.Nodup) :
+    (∀ v ∈ (run s l).out, v ≤ (run s l).ctr) ∧ (run s l).out.Nodup := by
+  induction l generalizing s with
+  | nil => exact ⟨hb, hn⟩
+  | cons x xs ih =>
+    obtain ⟨t, rfl⟩ := h x (List.mem_cons_self ..)
+    have h' : onlyAdds xs := fun y hy => h y (List.mem_cons_of_mem _ hy)
+    simp only [run, List.foldl_cons]
+    apply ih h'
+    · intro v hv
+      simp only [step, List.mem_cons] at hv ⊢
+      rcases hv with rfl | hv
+      · exact Nat.le_refl _
+      · exact Nat.le_succ_of_le (hb v hv)
+    · simp only [step]
+      refine List.nodup_cons.mpr ⟨?_, hn⟩
+      intro hm
+      have := hb _ hm
+      omega
+
+end Mint
 
 /-! ### the configuration cell -/
 namespace Cfg
